@@ -818,7 +818,12 @@ rt_prop("C07", ["task", "cancel", "comb"],
         "every request / stream leaf, join-handle queue or self-wake it is suspended at, so a task that run_task discards is "
         "suspended only at requests whose channel has closed (deadOnlyB). COMPLETENESS, one-request case "
         "(evict_complete_dropped_request_partial): a task suspended at a one-shot request whose Request was dropped is discarded by "
-        "its next poll (fresh waker serial, task not aborted). Completeness over whole commands is "
+        "its next poll (fresh waker serial, task not aborted); evict_complete_dropped_request_reachable — the same in every world the "
+        "direct host of any command reaches after any history, without the freshness hypothesis, by the GLOBAL INVARIANT "
+        "serials_fresh_direct / serials_fresh_core (Lemmas/Fresh*.lean: every operation of the model, every poll incl. hosted "
+        "commands at every nesting depth, the executor loops, command building, the shell's operations, the Core's executor and "
+        "event loop preserve `every waker serial in the world is below nextSerial`; so the serial a poll gets is held by "
+        "nothing, and World.holders models Arc::strong_count of THAT poll's waker). Completeness over whole commands is "
         "stated (evict_complete_goal), checked per step by the correspondence on the modelled fragment (`d`, `t` counters). It is "
         "FALSE on the real code outside that fragment: a task that retains a clone of its own waker (FuturesUnordered / "
         "flatten_unordered behind StreamBuilder::then_stream on a stream) and then waits on a dropped one-shot request is never evicted "
